@@ -416,6 +416,29 @@ fn two_template_stream(ipfix: bool, i: u64) -> (Vec<Vec<u8>>, Vec<u8>) {
     (calls, protos)
 }
 
+fn single_field_stream(ipfix: bool, i: u64) -> (Vec<Vec<u8>>, Vec<u8>) {
+    let which = (i % 11) as usize;
+    let nrec = (i / 11) as usize + 1;
+    let f = fs(SPECS[which].0, SPECS[which].1);
+    let mut protos = vec![];
+    let mut body = vec![];
+    for r in 0..nrec {
+        if f.ty == 4 {
+            let pv = [6u8, 17, 1, 47][r % 4];
+            protos.push(pv);
+            body.push(pv);
+        } else {
+            body.extend(crate::alphabet::rec_value(r, 0, f.len as usize));
+        }
+    }
+    let calls = if ipfix {
+        vec![ipfix_message(&IpfixMsg::new(vec![IpfixSet::Tpl(vec![IpfixTpl { id: 256, fields: vec![f] }], 0), IpfixSet::Data(256, body)]))]
+    } else {
+        vec![v9_packet(&V9Pkt::new(vec![V9Set::Tpl(vec![V9Tpl { id: 256, fields: vec![f] }], 0), V9Set::Data(256, body)]))]
+    };
+    (calls, protos)
+}
+
 /// one projected field (index `which` of SPECS) holds all-zero / all-ones in record 1; record 0 is byte-distinct
 fn boundary_stream(ipfix: bool, i: u64) -> (Vec<Vec<u8>>, Vec<u8>) {
     let d = digits(i, &[11, 2, 3]);
@@ -482,6 +505,19 @@ pub fn spaces(tier: &str) -> Vec<Box<dyn Space>> {
             move |i| super::stream::desc_calls(&two_template_stream(ipfix, i).0),
         ));
     }
+    // single-field templates: each projected field alone, 1..=4 records (a record is then one field: record grouping
+    // cannot lean on the field index changing)
+    for ipfix in [false, true] {
+        v.push(space(
+            &format!("{}-single-field-templates x 1..=4 records", if ipfix { "ipfix" } else { "v9" }),
+            11 * 4,
+            move |i| {
+                let (calls, protos) = single_field_stream(ipfix, i);
+                judge_stream(&calls, &protos)
+            },
+            move |i| super::stream::desc_calls(&single_field_stream(ipfix, i).0),
+        ));
+    }
     // boundary values of every projected field: all-zero and all-ones, in the full template, in a template without the
     // other address family, and alone
     for ipfix in [false, true] {
@@ -499,7 +535,7 @@ pub fn spaces(tier: &str) -> Vec<Box<dyn Space>> {
     let maxlen = if thorough { 5 } else { 3 };
     let nl = list_count(menu::SELF_DELIMITING + 1, maxlen);
     v.push(space(
-        &format!("flattening-helper: chains<={} over 15-packet menu x 4 prior states", maxlen),
+        &format!("flattening-helper: chains<={} over 18-packet menu x 4 prior states", maxlen),
         nl * 4,
         move |i| {
             let seq = list_at(menu::SELF_DELIMITING + 1, maxlen, i % nl);
@@ -518,7 +554,7 @@ pub fn run(tier: &str) -> i32 {
         prop: "C13".into(),
         tier: tier.into(),
         level: "model_checking",
-        rule: "V5/V7: walking byte over a 3-record packet and every materialised record count; V9 and IPFIX: templates made of EVERY subset of the projected fields (source/destination address each in {absent, IPv4, IPv6, both}, ports, protocol, first, last, two MACs = 2048 subsets) in three orders with two unrelated fields, 1..=3 records, 1..=2 data sets; flattening helper over all chains of <=3 (thorough 5) packets of a 15-packet menu x 4 prior cache states. Oracle: projection computed from the reference decode (one flow per record, in order, member = decoded field, None iff the template lacks it). Distinct by the hash of the returned flows".into(),
+        rule: "V5/V7: walking byte over a 3-record packet and every materialised record count; V9 and IPFIX: templates made of EVERY subset of the projected fields (source/destination address each in {absent, IPv4, IPv6, both}, ports, protocol, first, last, two MACs = 2048 subsets) in three orders with two unrelated fields, 1..=3 records, 1..=2 data sets; flattening helper over all chains of <=3 (thorough 5) packets of a 18-packet menu x 4 prior cache states. Oracle: projection computed from the reference decode (one flow per record, in order, member = decoded field, None iff the template lacks it). Distinct by the hash of the returned flows".into(),
         bounds: json!({"subsets": 2048, "orders": 3, "records": "1..=3", "data_sets": "1..=2"}),
         assumptions: vec!["when a record carries both an IPv4 and an IPv6 address of the same direction the IPv4 one is projected".into(), "V5/V7 protocol name = the name the decoded record carries (its correctness is C03's subject)".into()],
         trusted_base: vec!["refmodel.rs".into(), "c13::project".into()],
